@@ -6,7 +6,7 @@
 From Coq Require Import Reals QArith Qreals Sorting.Sorted Sorting.Permutation.
 From Coq Require Import PrimFloat.
 From PV Require Import Lib.Common Model.C11_Map Model.C11_MapFn Model.C11_Check Proofs.C11_Map Proofs.C11_MapFn Proofs.C11_Xo Proofs.C11_Float
-  Gen.C11_Kernel Proofs.C11_Kernel.
+  Gen.C11_Kernel Proofs.C11_Kernel Proofs.C11_Laws.
 
 (** * map functions *)
 (** both map functions send 0 to 0, [0,inf) into [0,1/2), are strictly increasing, tend to 1/2 at infinity, are undone
@@ -343,3 +343,42 @@ Example C11_kernel_hyps_satisfiable :
   is_congruent [mkRow 1 10 0 []; mkRow 1 20 (1 # 2) []; mkRow 2 5 (1 # 4) []] = true /\ r_chr (mkRow 1 10 0 []) = r_chr (mkRow 1 20 (1 # 2) [])
   /\ ((1 # 4) <= (1 # 2))%Q.
 Proof. repeat split; discriminate. Qed.
+
+(** * Further laws (Proofs/C11_Laws.v) *)
+(** ANY selection of markers — select(indices | mask), remove(indices | slice), ExtendedGeneticMap.prune(nt, M) — of a map without
+    duplicated positions that keeps two markers per chromosome is a well-formed map on which interpolation (the spline is rebuilt
+    from the remaining markers) is exact at the remaining markers, lies on the chord between consecutive remaining markers and
+    reports absent chromosomes as missing *)
+Theorem C11_interp_after_any_selection : forall rows mask, distinct_pos rows -> two_markers (select_rows rows mask) ->
+  let rows' := select_rows rows mask in
+  wf_map rows' /\
+  Forall2 ext_equiv (interp_genpos rows' (own_pairs rows')) (fin_gens rows') /\
+  (forall c i x, has_chr rows' c = true ->
+     let k := knots rows' c in (S i < length k)%nat -> (fst (nth i k (0%Z, 0%Q)) <= x <= fst (nth (S i) k (0%Z, 0%Q)))%Z ->
+     exists g, interp_pos rows' (c, x) = Fin g /\
+       (g == chord x (fst (nth i k (0%Z, 0%Q))) (snd (nth i k (0%Z, 0%Q))) (fst (nth (S i) k (0%Z, 0%Q))) (snd (nth (S i) k (0%Z, 0%Q))))%Q) /\
+  (forall c x, has_chr rows' c = false -> interp_pos rows' (c, x) = NaN).
+Proof. exact interp_after_select. Qed.
+Print Assumptions C11_interp_after_any_selection.
+
+(** scaling every genetic position of a chromosome by s scales every interpolated (and extrapolated) position by s *)
+Theorem C11_interp_scale_covariant : forall s pts x, (2 <= length pts)%nat -> (interp1 (scale_knots s pts) x == s * interp1 pts x)%Q.
+Proof. exact interp1_scale. Qed.
+Print Assumptions C11_interp_scale_covariant.
+
+(** translating all physical positions of a chromosome and the query by t leaves the interpolated position unchanged *)
+Theorem C11_interp_shift_invariant : forall t pts x, (2 <= length pts)%nat -> (interp1 (shift_knots t pts) (x + t) == interp1 pts x)%Q.
+Proof. exact interp1_shift. Qed.
+Print Assumptions C11_interp_shift_invariant.
+
+(** the sequential distances of the window [ast:asp] of a query are the sequential distances of the sliced query: the whole query
+    is interpolated marker by marker and sliced once *)
+Theorem C11_gdist1p_slice_commutes : forall rows query ast asp, gdist1p rows query ast asp = gdist1p rows (pyslice ast asp query) None None.
+Proof. exact gdist1p_slice_commutes. Qed.
+Print Assumptions C11_gdist1p_slice_commutes.
+
+Example C11_laws_hyps_satisfiable :
+  (distinct_pos wit_rd /\ two_markers (select_rows wit_rd (congruence wit_rd))) /\ (2 <= length [(5%Z, 0%Q); (9%Z, (1 # 4)%Q)])%nat.
+Proof.
+  split; [|apply le_n]. destruct wit_rd_wf as ((_ & D & _) & T & _). split; [exact D | exact T].
+Qed.
